@@ -69,6 +69,15 @@ func c01Check(w *l1World, st *l1Step, pre, post c01Frame) error {
 			}
 		}
 	}
+	// (1b) a deposit that reports success has moved its coins to the address derived from the id it names,
+	// whether or not a bridge exists there (the ledger of that address follows every accepted deposit)
+	if st.Kind == "deposit" {
+		for _, d := range w.denoms {
+			if got, want := w.e.Balance(escrowAddr(st.Bridge), d), w.expectedEscrow(st.Bridge, d); !got.Equal(want) {
+				return fmt.Errorf("deposit of %s into bridge id %d reported success, the address derived from that id holds %s%s, accepted deposits and transfers add up to %s", st.Amount, st.Bridge, got, d, want)
+			}
+		}
+	}
 	// (2) an escrow balance decreases only by a successful claim of that bridge, by the claimed coin
 	for id := range pre.escrow {
 		before, after := pre.escrow[id], post.escrow[id]
